@@ -963,3 +963,246 @@ func ruleNoSendAfterFailedSend(c *Ctx, rule string) {
 	}
 	c.floor(rule, n, 1, "server send method")
 }
+
+// ruleSendReportsTruth (C01.16 / C16.9): SendMsg reports success only for a message it handed to the sender successfully.
+func ruleSendReportsTruth(c *Ctx, rule string) {
+	c.rule(rule, "a send method reports success only for a message that was handed to the sender and accepted by it: every return of the client's and the server's SendMsg yields the sender's own result, a provably non-nil error, or nil on a path that passed the sender call with its result known nil — a refused, oversized, unmarshalable or failed message is never reported as sent")
+	w := c.W
+	a := w.Anchors()
+	n := 0
+	for _, s := range c.senderSendSites() {
+		fn := s.Parent()
+		rn := recvNamed(fn)
+		if rn == nil || !((a.CS != nil && rn.Obj() == a.CS.Obj()) || (a.SS != nil && rn.Obj() == a.SS.Obj())) {
+			continue
+		}
+		call, isCall := s.(*ssa.Call)
+		if !isCall {
+			continue
+		}
+		root := regionRoot(fn)
+		res := root.Signature.Results()
+		if res.Len() != 1 || !isErrorType(res.At(0).Type()) {
+			continue
+		}
+		n++
+		name := w.Short(root)
+		knownNonNil := func(v ssa.Value, at ssa.Instruction) bool {
+			if nn, _ := nonNilErrorPhiAware(v, at); nn {
+				return true
+			}
+			if nn, _ := nonNilError(origin(v), at, 0); nn {
+				return true
+			}
+			// a sticky error field tested non-nil on the way (another load of the same field, under the same mutex)
+			if fr, _, isF := loadedField(v); isF {
+				for _, f := range factsAt(at) {
+					if x, op, y, ok := cmpFact(f); ok && op == token.NEQ && isNilConst(y) {
+						if fr2, _, isF2 := loadedField(x); isF2 && fr2 == fr {
+							return true
+						}
+					}
+				}
+			}
+			return false
+		}
+		forEachReturnValue(root, 0, func(v ssa.Value, at ssa.Instruction) {
+			if !isNilConst(v) && !isErrorOfCall(v, call) && knownNonNil(v, at) {
+				// known non-nil as a whole (`if err := helper(); err != nil { return err }`): no need to look inside the helper
+				c.ok(rule, fmt.Sprintf("%s: result in block %d (%s)", name, at.Block().Index, shortDesc(v)), w.At(at), "provably non-nil error")
+				return
+			}
+			for _, vc := range valueCases(v, 3) {
+				leaf := vc.Val
+				key := fmt.Sprintf("%s: result in block %d (%s)", name, at.Block().Index, shortDesc(leaf))
+				if isErrorOfCall(leaf, call) {
+					// the sender's own result; where it is returned on the branch that found it nil, that is the success path
+					c.ok(rule, key, w.At(at), "the sender's result")
+					continue
+				}
+				if isNilConst(leaf) {
+					sent := false
+					for _, f := range append(append([]EdgeFact{}, vc.Facts...), factsAt(at)...) {
+						if x, op, y, ok := cmpFact(f); ok && op == token.EQL && isNilConst(y) && isErrorOfCall(x, call) {
+							sent = true
+						}
+					}
+					c.check(sent && dominates(call, at), rule, key, w.At(at), "nil only after the sender accepted the message", "the send method returns nil on a path that did not hand the message to the sender (or did not find the sender's result nil): the application is told a message was sent that never reached the wire — the peer's sequence is short although this side saw success")
+					continue
+				}
+				nonNil := knownNonNil(leaf, at)
+				for _, f := range vc.Facts { // tested non-nil inside the helper that returned it
+					if x, op, y, ok := cmpFact(f); ok && op == token.NEQ && isNilConst(y) && (stripConv(x) == stripConv(leaf) || origin(x) == origin(leaf)) {
+						nonNil = true
+					}
+				}
+				if li, isI := stripConv(leaf).(ssa.Instruction); isI && !nonNil && li.Parent() != at.Parent() {
+					// judged where the helper returns it
+					nRet, allNN := 0, true
+					for _, ret := range returnsOf(li.Parent()) {
+						for _, r := range ret.Results {
+							if stripConv(r) == stripConv(leaf) {
+								nRet++
+								if !knownNonNil(leaf, ret) {
+									allNN = false
+								}
+							}
+						}
+					}
+					if nRet > 0 && allNN {
+						nonNil = true
+					}
+				}
+				c.check(nonNil, rule, key, w.At(at), "provably non-nil error", "the send method returns "+desc(leaf)+", which may be nil, on a path other than the successful send: a message that was not sent may be reported as sent")
+			}
+		})
+	}
+	c.floor(rule, n, 2, "send methods (client, server)")
+}
+
+// ruleSetHeaderOnlyRecords (C02.16): SetHeader accumulates, it never sends; setting headers after they went out is refused.
+func ruleSetHeaderOnlyRecords(c *Ctx, rule string) {
+	c.rule(rule, "SetHeader only records: no response_headers emit is reachable from the server stream's SetHeader (constant flag arguments of the helpers it calls are honoured), so headers set in several calls all go out together; and on the path where the headers were already sent the header-setting methods return a non-nil error instead of dropping the metadata silently")
+	w := c.W
+	a := w.Anchors()
+	if a.SS == nil {
+		c.fail(rule, "server stream type", "-", "not found")
+		return
+	}
+	isEmit := func(in ssa.Instruction) bool {
+		for _, e := range c.emitSeq() {
+			if e.Kind == "ServerToClient_ResponseHeaders" && e.Send != nil && ssa.Instruction(e.Send) == in {
+				return true
+			}
+		}
+		return false
+	}
+	var reaches func(fn *ssa.Function, bind map[*ssa.Parameter]bool, depth int) bool
+	reaches = func(fn *ssa.Function, bind map[*ssa.Parameter]bool, depth int) bool {
+		if fn == nil || fn.Blocks == nil || depth > 4 {
+			return false
+		}
+		cut := func(pred, succ *ssa.BasicBlock) bool {
+			ef, has := edgeFact(pred, succ)
+			if !has {
+				return false
+			}
+			nf := normFact(ef)
+			if p, ok := stripConv(nf.Cond).(*ssa.Parameter); ok {
+				if v, known := bind[p]; known && v != nf.True {
+					return true
+				}
+			}
+			// the flag as seen inside a single-use helper or a function literal: the parameter / captured variable it stands for
+			if p, ok := origin(nf.Cond).(*ssa.Parameter); ok {
+				if v, known := bind[p]; known && v != nf.True {
+					return true
+				}
+			}
+			return false
+		}
+		target := func(in ssa.Instruction) bool {
+			if isEmit(in) {
+				return true
+			}
+			ci, ok := in.(ssa.CallInstruction)
+			if !ok {
+				return false
+			}
+			if _, isGo := in.(*ssa.Go); isGo {
+				return false
+			}
+			// function literals handed to a helper (`st.withWriteLock(func() error { … })`) run as part of the call
+			for _, arg := range ci.Common().Args {
+				if lit := funcValueTarget(stripConv(arg)); lit != nil && lit.Blocks != nil && w.inRoot(lit) && lit != fn {
+					if reaches(lit, bind, depth+1) {
+						return true
+					}
+				}
+			}
+			g := staticCallee(ci)
+			if g == nil || g.Blocks == nil || !w.inRoot(g) || g == fn || inlinedCallee(in) != nil {
+				return false
+			}
+			nb := map[*ssa.Parameter]bool{}
+			for k, v := range bind {
+				nb[k] = v
+			}
+			for i, p := range g.Params {
+				if i < len(ci.Common().Args) {
+					arg := stripConv(ci.Common().Args[i])
+					if isConstBool(arg, true) {
+						nb[p] = true
+					} else if isConstBool(arg, false) {
+						nb[p] = false
+					} else if q, isP := origin(arg).(*ssa.Parameter); isP {
+						if v, known := bind[q]; known {
+							nb[p] = v
+						}
+					}
+				}
+			}
+			return reaches(g, nb, depth+1)
+		}
+		return pathAvoidingE(fn, nil, target, nil, cut) != nil
+	}
+	set, send := w.methodFn(a.SS, "SetHeader"), w.methodFn(a.SS, "SendHeader")
+	if set == nil || send == nil {
+		c.fail(rule, "SetHeader / SendHeader", "-", "not found")
+		return
+	}
+	// self-check of the reachability: SendHeader does reach the emit
+	c.check(reaches(send, map[*ssa.Parameter]bool{}, 0), rule, "recogniser: SendHeader reaches the headers emit", posOf(w, send), "reachable", "the response_headers emit is not found from SendHeader: the rule for SetHeader would pass vacuously")
+	c.check(!reaches(set, map[*ssa.Parameter]bool{}, 0), rule, w.Short(set)+": never sends", posOf(w, set), "no response_headers emit reachable", "SetHeader can reach the response_headers emit: the first SetHeader sends the headers at once and every later SetHeader of the handler is refused ('already sent') — the caller does not see the headers the handler set")
+	// refusal is an error
+	var flag FieldRef
+	hasFlag := false
+	if a.HeadersLocked != nil {
+		for _, f := range boolFields(a.SS) {
+			for _, st := range storesToField(a.HeadersLocked, f) {
+				if isConstBool(st.Val, true) {
+					flag, hasFlag = f, true
+				}
+			}
+		}
+	}
+	if !hasFlag {
+		c.fail(rule, "headers-sent flag", "-", "cannot infer it from the header-emitting helper")
+		return
+	}
+	n := 0
+	seen := map[*ssa.Function]bool{}
+	var scan func(fn *ssa.Function, depth int)
+	scan = func(fn *ssa.Function, depth int) {
+		if fn == nil || seen[fn] || fn.Blocks == nil || depth > 3 {
+			return
+		}
+		seen[fn] = true
+		res := fn.Signature.Results()
+		if res.Len() == 1 && isErrorType(res.At(0).Type()) {
+			forEachReturnValue(fn, 0, func(v ssa.Value, at ssa.Instruction) {
+				if fieldFlagFact(at, flag, true) == nil {
+					return
+				}
+				n++
+				nn, _ := nonNilErrorPhiAware(v, at)
+				c.check(nn, rule, fmt.Sprintf("%s: refusal in block %d is an error", w.Short(fn), at.Block().Index), w.At(at), "non-nil error under "+flag.Field, "with the headers already sent the method returns "+desc(v)+", which may be nil: metadata the handler sets too late is dropped without the handler being told")
+			})
+		}
+		allInstrsLocal(fn, func(in ssa.Instruction) {
+			if ci, ok := in.(*ssa.Call); ok {
+				if g := staticCallee(ci); g != nil && w.inRoot(g) && recvNamed(g) != nil && recvNamed(g).Obj() == a.SS.Obj() {
+					scan(g, depth+1)
+				}
+				for _, arg := range ci.Call.Args {
+					if lit := funcValueTarget(stripConv(arg)); lit != nil && w.inRoot(lit) && lit.Parent() != nil {
+						scan(lit, depth+1)
+					}
+				}
+			}
+		})
+	}
+	scan(set, 0)
+	scan(send, 0)
+	c.floor(rule, n, 1, "refusal returns of the header-setting methods")
+}
